@@ -15,7 +15,7 @@ CONSTS = {
                   SlashToks="NoSlash", Coarse="FALSE", MaxDepth=1, MaxDesc=2),
     "quick_cg": dict(MaxLen=4, AtomToks="AtomsCG", DescToks="DescQ", SymToks="SymsQ", RingToks="RingsQ",
                      SlashToks="NoSlash", Coarse="TRUE", MaxDepth=1, MaxDesc=2),
-    "thorough": dict(MaxLen=5, AtomToks="AtomsT", DescToks="DescT", SymToks="SymsT", RingToks="RingsT",
+    "thorough": dict(MaxLen=4, AtomToks="AtomsT", DescToks="DescT", SymToks="SymsT", RingToks="RingsT",
                      SlashToks="NoSlash", Coarse="FALSE", MaxDepth=1, MaxDesc=3),
     "thorough_cg": dict(MaxLen=6, AtomToks="AtomsCG", DescToks="DescQ", SymToks="SymsT", RingToks="RingsQ",
                         SlashToks="NoSlash", Coarse="TRUE", MaxDepth=2, MaxDesc=3),
